@@ -108,7 +108,7 @@ Print Assumptions C11_walk_batches.
 (* For every input: after File.Create, ReturnEntries (NotificationOfChange) of either output
    denotes exactly the output's batches whose own Category() is Return (NOC). *)
 Theorem C11_output_lists : forall cat f gc gd,
-  input_wf ST f = true -> segment_gen cat ST f = GOk gc gd ->
+  input_wf ST f = true -> segment_cat cat ST f = GOk gc gd ->
   g_returns gc = filter (is_ret cat) (sf_batches (g_file gc)) /\ g_nocs gc = filter (is_noc cat) (sf_batches (g_file gc)) /\
   g_returns gd = filter (is_ret cat) (sf_batches (g_file gd)) /\ g_nocs gd = filter (is_noc cat) (sf_batches (g_file gd)).
 Proof. exact c11_output_lists. Qed.
@@ -121,7 +121,7 @@ Print Assumptions C11_output_lists.
    likewise for NotificationOfChange.  (_partial: without uniformity see C11_lists_union_refuted.) *)
 Theorem C11_lists_union_partial : forall cat f gc gd,
   input_wf ST f = true -> forallb (cat_uniform cat) (sf_batches f) = true ->
-  segment_gen cat ST f = GOk gc gd ->
+  segment_cat cat ST f = GOk gc gd ->
   let inp := built cat (sf_batches f) in
   Permutation (ids_of (g_returns gc) ++ ids_of (g_returns gd)) (ids_of (sel (sf_batches f) (bl_ret inp))) /\
   Permutation (ids_of (g_nocs gc) ++ ids_of (g_nocs gd)) (ids_of (sel (sf_batches f) (bl_noc inp))).
@@ -134,23 +134,56 @@ Print Assumptions C11_lists_union_partial.
    Return batch and the debit half a NOC batch. *)
 Theorem C11_lists_union_refuted :
   exists cat f gc gd,
-    validate ST f = None /\ input_wf ST f = true /\ forallb (is_category_ok cat) (sf_batches f) = true
-    /\ segment_gen cat ST f = GOk gc gd
+    validate_cat cat ST f = None /\ input_wf ST f = true /\ forallb (is_category_ok cat) (sf_batches f) = true
+    /\ segment_cat cat ST f = GOk gc gd
     /\ ~ Permutation (ids_of (g_returns gc) ++ ids_of (g_returns gd))
                      (ids_of (sel (sf_batches f) (bl_ret (built cat (sf_batches f))))).
 Proof. exact lists_union_refuted. Qed.
 Print Assumptions C11_lists_union_refuted.
 
+
+(* ---- the category check of validation (Batch.isCategory) ------------------------------------- *)
+
+(* [validate_cat cat ST] is the gate with isCategory of every batch of a non-ADV file, [segment_cat]
+   SegmentFile with that check on the input and on both outputs.  Without category labels they are
+   the gate / SegmentFile of the category-free model: *)
+Theorem C11_cat_forward : forall f, validate_cat (fun _ => CForward) ST f = validate ST f.
+Proof. exact c11_cat_forward. Qed.
+Print Assumptions C11_cat_forward.
+
+(* SegmentFile — gate, walk with AddBatch, File.Create, File.Validate with isCategory on both
+   outputs — succeeds for every non-ADV file that passes validation and whose batches are
+   category-uniform (what the reader produces).  _partial: see C11_succeeds_cat_refuted. *)
+Theorem C11_succeeds_cat_partial : forall cat f,
+  validate_cat cat ST f = None -> is_adv_file (sf_batches f) = false ->
+  forallb (cat_uniform cat) (sf_batches f) = true ->
+  exists gc gd, segment_cat cat ST f = GOk gc gd.
+Proof. exact c11_succeeds_cat. Qed.
+Print Assumptions C11_succeeds_cat_partial.
+
+(* Without uniformity "SegmentFile succeeds for every valid file" is false of the code (known
+   finding segment:error:category-split): isCategory takes the first entry's label as reference and
+   skips NOC labels, so a valid mixed batch [forward credit; debit labelled NOC; forward debit] has
+   a debit half [NOC; forward] that fails it.  The category-free model (C11_succeeds) segments the
+   same file. *)
+Theorem C11_succeeds_cat_refuted :
+  validate_cat cs_cat ST cs_file = None /\ input_wf ST cs_file = true /\ is_adv_file (sf_batches cs_file) = false
+  /\ forallb (cat_uniform cs_cat) (sf_batches cs_file) = false
+  /\ (exists cf df, segment ST cs_file = SOk cf df)
+  /\ segment_cat cs_cat ST cs_file = GErr (EOutput VBatch).
+Proof. exact succeeds_cat_refuted. Qed.
+Print Assumptions C11_succeeds_cat_refuted.
+
 (* Non-vacuity: a valid, category-uniform file (forward, return and NOC batches, pre-set numbers
    1 2 3 5 8) accepted by the validator model, and what SegmentFile makes of it. *)
 Theorem C11_general_example :
-  (validate ST ex_gfile = None /\ input_wf ST ex_gfile = true /\ is_adv_file (sf_batches ex_gfile) = false
+  (validate ST ex_gfile = None /\ validate_cat ex_cat ST ex_gfile = None /\ input_wf ST ex_gfile = true /\ is_adv_file (sf_batches ex_gfile) = false
    /\ forallb (cat_uniform ex_cat) (sf_batches ex_gfile) = true
    /\ forallb (is_category_ok ex_cat) (sf_batches ex_gfile) = true
    /\ bl_ret (built ex_cat (sf_batches ex_gfile)) = [1; 2]%nat /\ bl_noc (built ex_cat (sf_batches ex_gfile)) = [3]%nat)
   /\ (AR.validate_file gen_tables (s_file gen_tables ex_gep ex_ssp ex_gfile) = AR.ROk
       /\ forallb (fun b => negb (sb_adv b)) (sf_batches ex_gfile) = true)
-  /\ match segment_gen ex_cat ST ex_gfile with
+  /\ match segment_cat ex_cat ST ex_gfile with
      | GOk gc gd =>
          map sb_num (sf_batches (g_file gc)) = [2; 3; 5; 8] /\ map sb_num (sf_batches (g_file gd)) = [1; 3; 5; 8]
          /\ g_ret gc = [0; 1]%nat /\ g_noc gc = [2]%nat /\ g_ret gd = [1]%nat /\ g_noc gd = [2]%nat
